@@ -102,6 +102,7 @@ def progs_strata(tier, corpus_quick=False, want=None):
     st.append(("Pa", lambda: S.with_modes(S.prog_Pa(), optimize=(0, 1, 2)), S.n_prog_Pa() * 3))
     st.append(("Pb", lambda: S.with_modes(S.prog_Pb()), S.n_prog_Pb()))
     st.append(("Pc", lambda: S.with_modes(S.prog_Pc()), S.n_prog_Pc()))
+    st.append(("Q", S.prog_Q, S.n_prog_Q()))
     st.append(("Pe", S.prog_eval, S.n_prog_eval()))
     st.append(("Ps", S.prog_single, S.n_prog_single()))
     st.append(("F", lambda: S.feat_cases(tier), S.n_feat_cases(tier)))
